@@ -265,7 +265,9 @@ func c16opaque(v any) c16gv {
 
 // ---- documents
 
-func c16numTok(neg int, m *big.Int, e int) string { return fmt.Sprintf("#%d:%s:%d", neg, m.String(), e) }
+func c16numTok(neg int, m *big.Int, e int) string {
+	return fmt.Sprintf("#%d:%s:%d", neg, m.String(), e)
+}
 
 func c16floatTok(x float64) string {
 	neg, m, e := c16mant(x)
